@@ -313,8 +313,22 @@ class Driver:
         if not lines:
             return []
         data = "\n".join(lines) + "\n"
+        def big_stack():
+            # the model's structural recursions over long lists (tens of thousands of recorded balancing moves, long files) need
+            # more than the default 8 MiB of the main thread
+            import resource
+
+            soft, hard = resource.getrlimit(resource.RLIMIT_STACK)
+            want = 1 << 30
+            if hard != resource.RLIM_INFINITY:
+                want = min(want, hard)
+            try:
+                resource.setrlimit(resource.RLIMIT_STACK, (want, hard))
+            except (ValueError, OSError):
+                pass
+
         p = subprocess.run([self.exe], input=data, stdout=subprocess.PIPE, stderr=subprocess.PIPE,
-                           text=True, timeout=3600)
+                           text=True, timeout=3600, preexec_fn=big_stack)
         out = p.stdout.split("\n")
         if out and out[-1] == "":
             out.pop()
